@@ -328,6 +328,8 @@ func (s *socket) MaybeUpgrade(transport transports.Transport) {
 	var check, cleanup func()
 	var onPacket, onError, onTransportClose, onClose events.Listener
 	var upgradeTimeoutTimer, checkIntervalTimer atomic.Pointer[utils.Timer]
+	// the candidate's probe has been answered: only then may it ask for the switch
+	var probed atomic.Bool
 
 	onPacket = func(datas ...any) {
 		data := datas[0].(*packet.Packet)
@@ -336,6 +338,7 @@ func (s *socket) MaybeUpgrade(transport transports.Transport) {
 		if data.Type == packet.PING && sb.String() == "probe" {
 			socket_log.Debug("got probe ping packet, sending pong")
 			transport.Send([]*packet.Packet{{Type: packet.PONG, Data: strings.NewReader("probe")}})
+			probed.Store(true)
 
 			utils.ClearInterval(checkIntervalTimer.Load())
 			checkIntervalTimer.Store(utils.SetInterval(check, 100*time.Millisecond))
@@ -344,7 +347,7 @@ func (s *socket) MaybeUpgrade(transport transports.Transport) {
 			// find the interval above in order to clear it
 			s.Emit("upgrading", transport)
 
-		} else if packet.UPGRADE == data.Type && s.ReadyState() != "closed" {
+		} else if packet.UPGRADE == data.Type && probed.Load() && s.ReadyState() != "closed" {
 			socket_log.Debug("got upgrade packet - upgrading")
 			cleanup()
 			s.Transport().Discard()
